@@ -20,7 +20,7 @@ import numpy as np  # noqa: E402
 TIERS = {
     # case_cap: cases per specialisation; root_cap: scalar tuples per specialisation; ext: largest index the
     # definition may touch in an input / output; fills: guard and filler byte patterns (nuisance dimension)
-    "quick": dict(case_cap=10000, root_cap=1200, in_ext=16, out_ext=48, fills=(0x00, 0xFF), raw_cap=20000),
+    "quick": dict(case_cap=40000, root_cap=2000, in_ext=16, out_ext=48, fills=(0x00, 0xFF), raw_cap=60000),
     "thorough": dict(case_cap=40000, root_cap=3000, in_ext=24, out_ext=64, fills=(0x00, 0xFF, 0xA5),
                      raw_cap=150000),
 }
@@ -29,6 +29,29 @@ TIERS = {
 # definition-free treatment of class C (DESIGN.md 5 C13, class B)
 RAW_FALLBACK = ("awkward_ListArray_getitem_next_range", "awkward_ListArray_getitem_next_range_carrylength",
                 "awkward_NumpyArray_rearrange_shifted")
+
+
+
+@findings.predicate("c13_case")
+def _c13_case(v, params):
+    """Narrowing of C13 known findings: the failure class is one of `failure_in`, and/or the failing input's array
+    argument `arg` holds a value of class `has` (negative / nonzero / zero)."""
+    if "failure_in" in params and v.get("failure") not in params["failure_in"]:
+        return False
+    if "arg" in params:
+        case = v.get("case") or {}
+        a = (case.get("args") or case.get("input") or {}).get(params["arg"])
+        if isinstance(a, dict) and "vals" in a:
+            vals = list(a["vals"].values())
+        elif isinstance(a, dict):
+            vals = [x for payload in a.values() if isinstance(payload, list) for x in payload]
+        else:
+            return False
+        test = {"negative": lambda x: x < 0, "nonzero": lambda x: x != 0, "zero": lambda x: x == 0}[params.get("has", "nonzero")]
+        if not any(test(x) for x in vals):
+            return False
+    return True
+
 
 _lib = None
 
@@ -498,12 +521,12 @@ class C13(runner.Check):
         if self._quarantine is None:
             q = {"spec": {}, "kernel": set()}
             for ent in findings.load():
-                if ent.get("property") == "C13" and ent.get("status") == "known" and ent.get("quarantine"):
-                    qq = ent["quarantine"]
-                    if "spec" in qq:
-                        q["spec"].setdefault(qq["spec"], []).append(qq)
-                    if "kernel" in qq:
-                        q["kernel"].add(qq["kernel"])
+                if ent.get("property") == "C13" and ent.get("status") == "known":
+                    for qq in ent.get("quarantine") or []:
+                        if "spec" in qq:
+                            q["spec"].setdefault(qq["spec"], []).append(qq)
+                        if "kernel" in qq:
+                            q["kernel"].add(qq["kernel"])
             self._quarantine = q
         return self._quarantine
 
@@ -517,25 +540,41 @@ class C13(runner.Check):
 
     # ---- shards
     def shards(self, tier):
-        out = [("sig", tier)]
+        raw, out = [], [("sig", tier)]
         only = os.environ.get("AKV_C13_ONLY")
         for ki, k in enumerate(self.kernels()):
             if only and only not in k["name"]:
                 continue
             if k["class"] == "C" or k["name"] in RAW_FALLBACK:
-                out.append(("raw", tier, ki))
+                # the definition-free kernels with many specialisations are the longest shards: split their input
+                # enumeration into disjoint residue classes and start them first
+                nparts = 8 if len(k["specializations"]) > 3 else 1
+                for part in range(nparts):
+                    raw.append(("raw", tier, ki, part, nparts))
             if k["class"] != "C":
                 for si in range(len(k["specializations"])):
                     out.append(("def", tier, ki, si))
-        return out
+        return raw + out
 
     def run_shard(self, shard):
+        if os.environ.get("AKV_C13_TIMES"):
+            import time
+            t0 = time.time()
+            r = self._run_shard(shard)
+            with open(os.environ["AKV_C13_TIMES"], "a") as f:
+                f.write("%.2f %r %s nontrivial=%d states=%d %r\n" % (
+                    time.time() - t0, shard, self.kernels()[shard[2]]["name"] if len(shard) > 2 else "",
+                    r["nontrivial"], r["states"], sorted(r["outcomes"].items())))
+            return r
+        return self._run_shard(shard)
+
+    def _run_shard(self, shard):
         if shard[0] == "sig":
             return self.run_sig(shard[1])
         if shard[0] == "def":
             return self.run_def(shard[1], shard[2], shard[3])
         import c13_raw
-        return c13_raw.run_raw(self, shard[1], shard[2])
+        return c13_raw.run_raw(self, shard[1], shard[2], shard[3], shard[4])
 
     # ---- signatures
     def run_sig(self, tier):
@@ -641,12 +680,12 @@ class C13(runner.Check):
                 run.status, run.reason = "skip", "rule-relaxed-but-not-tested-by-definition"
             if run.status == "skip":
                 st.outcome("skipped:" + run.reason)
-                return
+                return False
             if run.status == "broken":
                 broken[0] += 1
                 broken[1] = run.reason
                 st.outcome("definition-not-executable")
-                return
+                return True
             errored = run.status == "error"
             wrote = False
             for o in rs.aux.values():
@@ -691,15 +730,18 @@ class C13(runner.Check):
             st.outcome(label)
             if label != "MISMATCH" and len(st.samples) < 1 and wrote and st.states % 7 == 3:
                 st.sample({"case": describe(case_dict(spec, scalars, rs, fills[0], errored)), "agrees": True})
+            return True
 
         try:
-            runs, levels, exhausted = e2.explore(roots, len(scal), body, T["case_cap"])
+            runs, counted, levels, exhausted = e2.explore(roots, len(scal), body, T["case_cap"])
         except StopIteration:
             return found.get("case")
         pool.unmark()
         if dry_until is not None:
             return None
         st.count("class_%s_specialisations_explored" % cls)
+        if getattr(fn, "repaired", None):
+            st.count("definition_repaired_in_harness(by-reference helper %s):%s" % (",".join(fn.repaired), k["name"]))
         if broken[0]:
             st.count("definition_not_executable_cases:" + k["name"], broken[0])
             st.violation("kernel-mismatch", "definition-not-executable: the definition of %s fails on %d of %d candidates "
@@ -713,7 +755,8 @@ class C13(runner.Check):
         else:
             why = []
             if not exhausted:
-                why.append("case cap %d: all candidates with < %d non-default elements done" % (T["case_cap"], levels))
+                why.append("case cap %d (%d candidates run, %d inside the contract): all candidates with < %d "
+                           "non-default elements done" % (T["case_cap"], runs, counted, levels))
             if rootcapped:
                 why.append("scalar tuples %d of %d" % (T["root_cap"], rootcapped))
             if shrink:
@@ -741,7 +784,7 @@ class C13(runner.Check):
                 return case
         if sh[0] == "raw":
             import c13_raw
-            case = c13_raw.run_raw(self, sh[1], sh[2], dry_until=c.case_no)
+            case = c13_raw.run_raw(self, sh[1], sh[2], sh[3], sh[4], dry_until=c.case_no)
             if case is not None:
                 case["failure"] = "crash"
                 return case
@@ -790,6 +833,12 @@ class C13(runner.Check):
         allpreset = dict(preset)
         allpreset.update(outs)
         call = Call(spec, scalars, rs, case["fill"], run.status == "error", preset=allpreset)
+        import c13_raw
+        sig = c13_raw.in_child(klib().fn(spec), call.cargs)
+        if sig is not None:
+            lines.append("compiled kernel: dies with signal %d" % sig)
+            lines.append("MISMATCH crash")
+            return True, "\n".join(lines)
         err = klib().fn(spec)(*call.cargs)
         lines.append("compiled kernel: %s" % ("fails: %r" % err.str if err.str is not None else "succeeds"))
         for a in spec["args"]:
